@@ -3,10 +3,14 @@
    usage: driver c09 | driver c10      (observation lines of `pwm c09|c10 run` on stdin)
 
    For every case it prints  <id> OK | <id> PROPFAIL <why> | <id> DIFF <why>.
-   PROPFAIL: an extracted property checker (coq/pwm/PwmCheck.v) rejected the
-   implementation's observation.  DIFF: the observation differs from the extracted
-   binary32 model (bit-exact up to the logarithm, through the libm oracle table after
-   it), or the oracle table failed the re-validation of the recorded assumptions. *)
+   PROPFAIL: an extracted property checker (coq/pwm/PwmCheck.v, PwmCheck2.v, PwmLog.v)
+   rejected the implementation's observation.  DIFF: the observation differs from the
+   extracted binary32 model (bit-exact up to the logarithm, through the libm oracle table
+   after it), or an oracle entry is not a logarithm (extracted interval checker
+   log_pair_ok, PwmLog.v) / the table is not monotone (check_log_mono).
+   A comparison that a checker could not make (its guard failed: see the *_skipped
+   functions of PwmCheck2.v) is counted and printed behind the verdict:
+   `<id> OK skipped=<what>:<n>,...` -- never a silent OK. *)
 open Pwm_model
 
 (* ---------- conversions ---------- *)
@@ -76,6 +80,16 @@ let pf s = if !propfail = None then propfail := Some s
 let df s = if !diff = None then diff := Some s
 (* a DIFF ends the stage-by-stage walk: later stages would only repeat it *)
 let df_stop s = df s; raise Stop
+(* comparisons that were not made (guard of an extracted checker failed), per case *)
+let skips : (string * int) list ref = ref []
+let skip name n =
+  if n > 0 then
+    skips := (match List.assoc_opt name !skips with
+        | Some k -> (name, k + n) :: List.remove_assoc name !skips
+        | None -> (name, n) :: !skips)
+let show_skips () =
+  if !skips = [] then ""
+  else " skipped=" ^ String.concat "," (List.map (fun (a, n) -> Printf.sprintf "%s:%d" a n) (List.rev !skips))
 
 (* ---------- logarithm oracle ---------- *)
 let tab : (int * int, int) Hashtbl.t = Hashtbl.create 64
@@ -127,7 +141,45 @@ let validate_pow2 l =
     | _ -> () in
   mono sorted
 
-(* re-validation of the recorded assumptions on every value of the table:
+(* memo of the pure extracted function ln_iv_f32 (enclosure of ln x by verified interval arithmetic on
+   extracted Z: ~1 ms per call), keyed by the bit pattern; it lives as long as the process.  The extracted
+   checkers log_pair_ok_k_pre / check_score_cell_real_pre take that enclosure as an argument
+   (= log_pair_ok / check_score_cell_real when it is ln_iv_f32 of the same number: PwmLogProofs.v *_pre_eq) *)
+let ln_memo = Hashtbl.create 4096
+let ln_iv b =
+  match Hashtbl.find_opt ln_memo b with
+  | Some r -> r
+  | None -> let r = ln_iv_f32 (fb b) in Hashtbl.replace ln_memo b r; r
+let lpo_memo : (int * int * int, bool) Hashtbl.t = Hashtbl.create 4096
+let lpo kind i o =
+  let key = (kind, canon i, canon o) in
+  match Hashtbl.find_opt lpo_memo key with
+  | Some r -> r
+  | None -> let r = log_pair_ok_k_pre (ln_iv (canon i)) (nat_of_int kind) (fb i) (fb o) in
+      Hashtbl.replace lpo_memo key r; r
+
+(* validation of every value of the oracle table by the EXTRACTED checkers (C09; review C09/1):
+   each (input, output) pair of kind 2 / 10 / 0 is a logarithm (log_pair_ok: NaN / negative -> NaN,
+   0 -> -inf, +inf -> +inf, 1 -> 0, otherwise within 2^-20 relative of the real log2 / log10 / ln),
+   and the table is monotone on its non-negative inputs (check_log_mono on the sorted list; the
+   sorting is hand-written, the checker re-checks the order).  Kind 3 (2^x) as before. *)
+let validate_oracle_exact () =
+  let by_kind = Hashtbl.create 4 in
+  Hashtbl.iter (fun (k, i) o ->
+      let l = try Hashtbl.find by_kind k with Not_found -> [] in
+      Hashtbl.replace by_kind k ((i, o) :: l)) tab;
+  Hashtbl.iter (fun k l ->
+      if k = 3 then validate_pow2 l else begin
+        List.iter (fun (i, o) ->
+            if not (lpo k i o) then df (Printf.sprintf "oracle-not-logarithm kind=%d in=%d out=%d" k i o)) l;
+        let pos = List.filter (fun (i, _) -> let x = ocaml_float i in (not (Float.is_nan x)) && x >= 0.0) l in
+        let sorted = List.sort (fun (a, _) (b, _) -> compare (ocaml_float a) (ocaml_float b)) pos in
+        if not (check_log_mono (List.map (fun (i, o) -> (fb i, fb o)) sorted))
+        then df (Printf.sprintf "oracle-not-monotone kind=%d" k)
+      end) by_kind
+
+(* C10 (the logarithm is not part of that property; DIFF path only): the cheaper hand-written
+   re-validation in double precision:
    log 0 = -inf, log of a negative number / NaN is NaN, log +inf = +inf, monotone,
    and b^(log_b x) = x up to 1e-4 (computed with OCaml's double-precision pow) *)
 let validate_oracle () =
@@ -222,8 +274,20 @@ let get_fm geto name =
   | Some s -> fmat (imatrix s)
 
 let is_zero x = let b = bf x in b = 0 || b = 0x80000000
-(* a base for which log_b 0 = -inf: finite and > 1 (log_inf 0 = -inf/inf is NaN) *)
-let gt_one b = let x = ocaml_float b in x > 1.0 && x < infinity
+
+(* enclosure of ln base and "base > 1" (extracted base_iv), once per base *)
+let base_iv_tab = Hashtbl.create 64
+let base_iv_memo base_b =
+  match Hashtbl.find_opt base_iv_tab base_b with
+  | Some r -> r
+  | None -> let r = base_iv (fb base_b) in Hashtbl.replace base_iv_tab base_b r; r
+let score_real_tab : (int * bool * int * int, bool) Hashtbl.t = Hashtbl.create 4096
+let score_real base_b lbp b w o =
+  (* check_score_cell_real_pre looks at the background only through `bg == 0.0` *)
+  let key = (base_b, is_zero b, bf w, bf o) in
+  match Hashtbl.find_opt score_real_tab key with
+  | Some r -> r
+  | None -> let r = check_score_cell_real_pre (ln_iv (bf w)) lbp b w o in Hashtbl.replace score_real_tab key r; r
 
 (* ---------- C09 ---------- *)
 let c09_scores al k get geto (sm : f32 list list) =
@@ -255,8 +319,10 @@ let c09_scores al k get geto (sm : f32 list list) =
        | _, _ -> df (Printf.sprintf "win[%d] model-panics" p));
       if w <> "P" && p + m <= l && idx <= l - m && window_clean k (nat_of_int m) seq (nat_of_int p) then
         (match mn, mx with
-         | Some a, Some b -> if not (check_window a b (fb (int_of_string w)))
-             then pf (Printf.sprintf "window-outside-min-max pos=%d" p)
+         | Some a, Some b ->
+             let wv = fb (int_of_string w) in
+             if window_skipped a b wv then skip "window:nan" 1;
+             if not (check_window a b wv) then pf (Printf.sprintf "window-outside-min-max pos=%d" p)
          | _, _ -> ())) (List.combine positions win)
 
 let c09_pipe al k get geto =
@@ -275,13 +341,17 @@ let c09_pipe al k get geto =
   (* frequencies *)
   let pseudo = pseudo_of k (Option.get (get "ps")) in
   let fq = get_fm geto "fq" in
-  if not (check_freq eps_freq pseudo cm fq) then pf "frequency-not-(count+pseudo)/total";
+  (* check_freq2 (PwmCheck2.v): a row is judged iff the pseudocounts are finite and >= 0 and the exact
+     total is in (0, 2^100] (a function of the input); a non-finite observed cell on a judged row fails *)
+  if not (check_freq2 eps_freq pseudo cm fq) then pf "frequency-not-(count+pseudo)/total";
+  skip "freq-row:pseudo-or-total-outside-domain" (int_of_nat (freq_skips pseudo cm));
   same_fm "fq" (to_freq ops pseudo cm) fq;
   (* weights *)
   let wm = get_fm geto "wm" in
   let wbg = frow (ints (Option.get (geto "wbg"))) in
   if not (row_same mbg wbg) then df_stop "background-values";
   if not (check_weight rel_w tiny wbg fq wm) then pf "weight-not-frequency/background";
+  skip "weight-cell:non-finite" (int_of_nat (weight_skips wbg fq wm));
   same_fm "wm" (to_weight ops wbg fq) wm;
   (* oracle table *)
   let wmi = imatrix (Option.get (geto "wm")) in
@@ -292,30 +362,49 @@ let c09_pipe al k get geto =
   tab_add_matrix kind wmi (imatrix (Option.get (geto "LB")));
   tab_add 0 base_b (int_of_string (Option.get (geto "lnb")));
   tab_add 2 0 (int_of_string (Option.get (geto "l2z")));
-  validate_oracle ();
+  validate_oracle_exact ();
   (* section hypotheses of one_step_eq_two_step, on the actual values *)
   if bf (l2 f32_zero) <> 0xFF800000 then df "assumption flog2 0 = -inf fails";
-  (* scores *)
-  let check_scores name obs expected_cell base_gt_one =
+  (* scores.  Two extracted checks per cell (the iteration over the cells and the memo are hand-written):
+     (1) check_score_cell_real (PwmLog.v, sound: C09_check_score_cell_real_sound): the OBSERVED score is the
+         logarithm, in the requested base, of the OBSERVED weight -- within 2^-20 relative of the real number
+         ln w / ln base, enclosed by verified interval arithmetic; no oracle involved; -inf at a zero background
+         (base > 1).  Not applicable to bases without a logarithm function (NaN, infinite, <= 0, 1): counted.
+     (2) check_score_cell2 (PwmCheck2.v): the observed score against the value computed from the libm oracle
+         (as coded: log2 / log10 / ln w / ln base), also for those bases; a NaN expected value is counted. *)
+  let check_scores name obs expected_cell base_b =
+    let niz = base_gt_one (fb base_b) in
+    let lbp = base_iv_memo base_b in
     List.iteri (fun i (orow, wrow) ->
-        List.iteri (fun j ((o, w), b) ->
+        if List.length orow <> List.length wrow || List.length orow <> List.length wbg
+        then pf (Printf.sprintf "%s[%d]-row-shape" name i)
+        else List.iteri (fun j ((o, w), b) ->
             let e = expected_cell w in
-            let ok = if is_zero b && not base_gt_one then f32_close abs_s rel_s e o || f32_is_nan e
-              else check_score_cell abs_s rel_s e b o in
-            if not ok then pf (Printf.sprintf "%s[%d][%d]-not-log-of-weight" name i j))
+            if score_cell_skipped niz e b then skip (name ^ "-cell:oracle-value-nan") 1;
+            if not (check_score_cell2 abs_s rel_s niz e b o)
+            then pf (Printf.sprintf "%s[%d][%d]-not-log-of-weight" name i j);
+            (match lbp with
+             | None -> skip (name ^ "-cell:base-without-real-logarithm") 1
+             | Some p -> if not (score_real base_b p b w o)
+                 then pf (Printf.sprintf "%s[%d][%d]-not-log-of-weight (real logarithm)" name i j)))
           (List.combine (List.combine orow wrow) wbg)) (List.combine obs wm) in
+  let two_b = 0x40000000 in
   let s2 = get_fm geto "s2" in
-  check_scores "s2" s2 l2 true;
+  if List.length s2 <> List.length wm then pf "s2-shape";
+  check_scores "s2" s2 l2 two_b;
   same_fm "s2" (to_scoring ops l2 l10 ln wm) s2;
   let s1 = get_fm geto "s1" in
-  check_scores "s1" s1 l2 true;
-  if not (fm_close abs_s rel_s s1 s2) then pf "one-step-and-two-step-routes-disagree";
+  if List.length s1 <> List.length wm then pf "s1-shape";
+  check_scores "s1" s1 l2 two_b;
+  (* proved bit for bit (C09_one_step_eq_two_step): exact comparison (review C09/5) *)
+  if not (check_one_step_two_step s1 s2) then pf "one-step-and-two-step-routes-disagree";
   same_fm "s1" (into_scoring ops l2 wbg fq) s1;
   (match geto "s1bg" with Some b -> if not (row_same wbg (frow (ints b))) then df "s1-background" | None -> ());
   let s1i = get_fm geto "s1i" in
   same_fm "s1i" (into_scoring ops l2 wbg fq) s1i;
   let sb = get_fm geto "sb" in
-  check_scores "sb" sb (flog ops l2 l10 ln base) (gt_one base_b);
+  if List.length sb <> List.length wm then pf "sb-shape";
+  check_scores "sb" sb (flog ops l2 l10 ln base) base_b;
   same_fm "sb" (to_scoring_with_base ops l2 l10 ln base wm) sb;
   if !oracle_miss then df "oracle-miss";
   (* rescale *)
@@ -340,6 +429,7 @@ let c09_pipe al k get geto =
             let rsbg = frow (ints (Option.get (geto "rsbg"))) in
             let (mb, md) = rescale ops wbg wm b2 in
             if not (check_rescale (q_of_frac 1 100000) tiny wbg rsbg fq rs) then pf "rescaled-weight-not-frequency/new-background";
+            skip "rescale-cell:old-background-zero-or-non-finite" (int_of_nat (rescale_skips wbg rsbg fq rs));
             if not (row_same mb rsbg) then df "rescale-background";
             if not (fm_same md rs) then df (Printf.sprintf "rs model=%s" (show_fmat md)))
    | _, _ -> df "background2-model");
@@ -467,7 +557,7 @@ let c09_stat al k get geto =
   (match get "sm", geto "rP2" with
    | Some r, Some o -> tab_add_matrix 3 (imatrix r) (imatrix o)
    | _, _ -> ());
-  validate_oracle ();
+  validate_oracle_exact ();
   scalar_cmp "wic" (Ok (weight_information_content ops l2 wbg wm)) (Option.value (geto "wic") ~default:"P");
   corr_stage "w" conv_id wm wm2 get geto ~range:false;
   (* scores, ScoringMatrix::information_content, From<ScoringMatrix> for WeightMatrix *)
@@ -572,7 +662,8 @@ let c09_case line_in obs_s =
         let c = List.map n_of_u64 (split ',' (Option.get (get "c"))) in
         let obs = bg_result geto in
         let wrap = (geto "prof" = Some "rel") in
-        if not (total_overflows c) then check_bg_obs "from_counts" c obs;
+        if not (total_overflows c) then check_bg_obs "from_counts" c obs
+        else skip "from_counts:total-exceeds-usize" 1;
         (match bg_from_counts_ovf ops wrap c, obs with
          | Panic _, `P -> ()
          | Panic _, _ -> df "from_counts: model panics (usize overflow), implementation does not"
@@ -637,6 +728,7 @@ let c10_case line_in obs_s =
   let normal_or_zero x =
     is_zero x || (let v = Float.abs (ocaml_float (bf x)) in Float.is_nan v || v >= 1.17549435e-38) in
   let wellcond = List.for_all (List.for_all normal_or_zero) fq && List.for_all (List.for_all normal_or_zero) fc in
+  if ps_sym && not wellcond then skip "rc-commutation:subnormal-frequency" 1;
   let ps_sym = ps_sym && wellcond in
   if ps_sym && not (fm_close zero_q rel_c f1 fc) then pf "rc-does-not-commute-with-to_freq";
   same_fm "fc" (to_freq ops pseudo c1) fc;
@@ -700,7 +792,9 @@ let c10_case line_in obs_s =
       if w = "P" || r = "P" then pf (Printf.sprintf "unexpected-panic score_position %d" i)
       else begin
         let wv = fb (int_of_string w) and rv = fb (int_of_string r) in
-        if not (check_mirror (window_terms ops sm seq (nat_of_int i)) wv rv)
+        let terms = window_terms ops sm seq (nat_of_int i) in
+        if mirror_skipped terms wv rv then skip "mirror:nan-or-inf" 1;
+        if not (check_mirror terms wv rv)
         then pf (Printf.sprintf "mirrored-score-differs pos=%d fwd=%s rev=%s" i w r);
         (match score_position ops k cols sm seq (nat_of_int i) with
          | Ok v -> if bf v <> canon (int_of_string w) then df (Printf.sprintf "win[%d] model=%d" i (bf v))
@@ -722,7 +816,7 @@ let () =
           match Str.bounded_split_delim (Str.regexp_string " =>") line 2 with
           | [a; b] -> (a, b) | [a] -> (a, "") | _ -> (line, "") in
         let id = List.hd (String.split_on_char ' ' inp) in
-        propfail := None; diff := None; oracle_miss := false; Hashtbl.reset tab;
+        propfail := None; diff := None; oracle_miss := false; skips := []; Hashtbl.reset tab;
         (try
            if which = "c10" then c10_case inp obs else c09_case inp obs
          with
@@ -731,7 +825,7 @@ let () =
         (match !propfail, !diff with
          | Some s, _ -> print_endline (id ^ " PROPFAIL " ^ s)
          | None, Some s -> print_endline (id ^ " DIFF " ^ s)
-         | None, None -> print_endline (id ^ " OK"))
+         | None, None -> print_endline (id ^ " OK" ^ show_skips ()))
       end
     done
   with End_of_file -> ()
